@@ -457,8 +457,11 @@ class Check:
         ev = {"property_id": self.pid, "tier": self.tier, "seed": self.seed, "level": self.level,
               "coverage": cov, "assumptions": self.assumptions, "wall_s": round(wall, 2),
               "violations": len(seen)}
-        ensure(os.path.join(ROOT, "evidence"))
-        with open(os.path.join(ROOT, "evidence", self.pid + ".json"), "w") as fh:
+        # runs against a scratch tree (VERIF_REPO=<worktree>, e.g. bin/mutrun.sh) must not replace the
+        # evidence of the run against the repository itself
+        evdir = os.path.join(ROOT, "evidence") if os.path.abspath(REPO) == "/repo" else os.path.join(WORK, "evidence-scratch")
+        ensure(evdir)
+        with open(os.path.join(evdir, self.pid + ".json"), "w") as fh:
             json.dump(ev, fh, indent=1, default=str)
         log("%s %s: %d violation(s), %d known finding(s), %.1fs" %
             (self.pid, self.tier, len(seen), len(self.known_hit), wall))
